@@ -462,7 +462,7 @@ def run(ctx: vlib.Ctx):
     pool = cf.ThreadPoolExecutor(max_workers=5 if ctx.quick else 10)
     futures = [pool.submit(R.launch, s) for s in specs]
     stateful_spec = {"kind": "stateful", "scratch": f"/var/tmp/verif-C21-{os.getpid()}-stateful", "seed": ctx.rng.randrange(10**6),
-                     "rounds": 12 if ctx.quick else 60, "module": "c21_stateful_sut", "strategy": "-", "assertion_generation": "SIMPLE"}
+                     "rounds": 16 if ctx.quick else 64, "module": "c21_stateful_sut", "strategy": "-", "assertion_generation": "SIMPLE"}
     stateful_future = pool.submit(R.launch, stateful_spec)
 
     import libcst as cst
